@@ -119,7 +119,7 @@ func declKey(kp *KeyPair) Op {
 	pk := kp.pk
 	return Op{"op": "decl-key", "class": "decl", "id": kp.id, "n": hx(pk.N), "Z": hx(pk.Z), "S": hx(pk.S), "G": hx(pk.G), "H": hx(pk.H),
 		"R": hxs(pk.R), "counter": int(pk.Counter), "ecdsa": pk.ECDSAString, "issuer": pk.Issuer, "params": paramsOp(pk.Params),
-		"nbits": pk.N.BitLen()}
+		"nbits": pk.N.BitLen(), "custom": pk.Params != nil && pk.Params != gabikeys.DefaultSystemParameters[pk.N.BitLen()]}
 }
 
 // declSk announces the private key (only for ops in which the real code must act as issuer).
@@ -140,7 +140,7 @@ func init() {
 			return "err"
 		}
 		pk.Issuer = o.str("issuer")
-		if pk.Params == nil && o["params"] != nil {
+		if (pk.Params == nil || o.boolean("custom")) && o["params"] != nil {
 			// parameter sets not in the default table are re-installed from the declaration
 			pm := o["params"].(map[string]any)
 			u := func(k string) uint { n, _ := pm[k].(json.Number).Int64(); return uint(n) }
@@ -254,4 +254,17 @@ func rotatedKey(base, material *KeyPair, counter uint) *KeyPair {
 	pk2, sk2 := *material.pk, *material.sk
 	pk2.Issuer, pk2.Counter, sk2.Counter = base.pk.Issuer, counter, counter
 	return &KeyPair{id: fmt.Sprintf("%s#%d", base.id, counter), sk: &sk2, pk: &pk2}
+}
+
+// toyKeyWith generates a 256-bit key pair whose parameter set differs from the shipped ones in
+// the length of the prime exponent interval (LePrime): byte-aligned and unaligned lengths.
+func toyKeyWith(id string, nattr int, lePrime uint) *KeyPair {
+	base := gabikeys.BaseParameters{LePrime: lePrime, Lh: 256, Lm: 256, Ln: 256, Lstatzk: 80}
+	params := &gabikeys.SystemParameters{BaseParameters: base, DerivedParameters: gabikeys.MakeDerivedParameters(base)}
+	sk, pk, err := gabikeys.GenerateKeyPair(params, nattr, 0, time.Unix(2000000000, 0))
+	if err != nil {
+		panic(err)
+	}
+	pk.Issuer = id
+	return &KeyPair{id: id, sk: sk, pk: pk}
 }
